@@ -166,6 +166,27 @@ def run(ctx):
                       env={"REDO_VERIF_DELAY": "js.tryread:all=80,js.tryread=10"}, timeout=15,
                       graph=dict([("all", sib), ("slow", [])] + [(x, ["slow"]) for x in sib])):
                 break
+    # 4c. a script starts its own jobserver (`redo -j2 inner`) after its redo-ifchange had to borrow a token: command B
+    #     builds x (1 s) while command A (`redo -j1 a c`) builds a (needs x, then runs `redo -j2 inner`) and c (2 s)
+    if not viol:
+        pr = Project()
+        try:
+            pr.write("x.do", "sleep 1.0\necho x\n")
+            pr.write("a.do", "redo-ifchange x\nredo -j2 inner\necho a\n")
+            pr.write("c.do", "sleep 2.0\necho c\n")
+            pr.write("inner.do", "echo inner\n")
+            rs = sched.run_cmds(pr, [["redo", "x"], ["redo", "-j1", "a", "c"]], timeout=40, stagger=0.3)
+            stats["scenarios"] += 1
+            stats["runs"] += 2
+            stats["nested_jobserver_cheats"] = sum(1 for e in rs[0].trace if e[2] == "js.cheat")
+            scen = dict(name="nested own jobserver after a cheat", commands=[["redo", "x"], ["redo", "-j1", "a", "c"]])
+            bad = [r for r in rs if r.rc != 0 or r.timed_out or "on exit: expected" in r.err or "panicked" in r.err]
+            if bad:
+                p = write_replay("C09", "nested-jobserver", dict(kind="impl-monitor", scenario=scen, rcs=[r.rc for r in rs], stderr=[r.err[-1200:] for r in rs]))
+                m = re.search(r"on exit: expected[^\n]*", bad[0].err)
+                viol.append(Violation("C09", p, "all scripts succeed but a command exited %s%s (a.do runs `redo -j2 inner` after `redo-ifchange x` waited for another command's lock)" % (bad[0].rc, ": " + m.group(0) if m else "")))
+        finally:
+            pr.destroy()
     # 5. random graphs, random -j, random delays
     if not viol:
         for i in range(60 if thorough else 8):
